@@ -25,7 +25,7 @@ from harness.core import cps, uncps
 from . import codec_common as cc
 
 A10 = [35, 58, 59, 92, 47, 10, 97, 32, 13, 65279]
-SYMS = [1, 2, 3, 4, 5, 6, 7, 8, 9, 35, 58, 59, 92, 47, 10, 97, 32]
+SYMS = [1, 2, 3, 4, 5, 6, 7, 8, 9, 65279, 35, 58, 59, 92, 47, 10, 97, 32]
 NAMES = ["a.sm", "a.ssc", "A.SM", "a.txt", "a.sm.bak", "b.SsC", "a.ssc.old"]
 
 
@@ -270,7 +270,7 @@ def gen_param(rng):
 def gen_text(rng):
     parts = []
     if rng.random() < 0.15:
-        parts.append("\ufeff")
+        parts.append("\ufeff" + rng.choice(["", "", "\n", " ", "\r\n", "// c\n"]))
     if rng.random() < 0.25:
         parts.append(rng.choice(["stray", " \t", "// note\n", ";", ":", "x\n", "\\a", "/", "// a; b: c\n", "x;y\n", " ;\n"]))
     for _ in range(rng.choice([0, 1, 2, 3, 4, 6, 9])):
